@@ -72,6 +72,9 @@ const (
 )
 
 func goTypeOf(e ast.Expr) gty {
+	if ty, ok := goTypeOf7(e); ok { // translate7.go: the interface{} values and named []byte types of the sFlow decoder
+		return ty
+	}
 	if ty, ok := goTypeOf5(e); ok { // translate5.go: interface{} as the sum of the package's structs, the template store
 		return ty
 	}
@@ -154,6 +157,9 @@ func isStruct(t gty) bool { return strings.HasPrefix(string(t), "struct:") }
 func isPtr(t gty) bool    { return strings.HasPrefix(string(t), "ptr:") }
 
 func leanTy(t gty) string {
+	if s, ok := leanTy7(t); ok { // translate7.go
+		return s
+	}
 	if s, ok := leanTy5(t); ok { // translate5.go
 		return s
 	}
@@ -251,6 +257,9 @@ func elemOf(t gty) gty {
 	if t == tLIface { // translate5.go
 		return tIface
 	}
+	if e, ok := elemOf7(t); ok { // translate7.go
+		return e
+	}
 	return tBad
 }
 
@@ -275,6 +284,9 @@ func zeroOf(t gty) (string, bool) {
 		return "Iface.nil", true
 	case tLIface:
 		return "[]", true
+	}
+	if z, ok := zeroOf7(t); ok { // translate7.go
+		return z, true
 	}
 	return "", false
 }
@@ -668,6 +680,9 @@ func (t *tr) expr(e ast.Expr) val {
 			i := t.as(x.Index, t.expr(x.Index), tInt)
 			return val{code: t.bind("Go.idxL" + iSuffix() + " " + base.code + " " + i), ty: elemOf(base.ty)}
 		}
+		if v, ok := t.index7(base, x); ok { // translate7.go: s[i] on []uint32
+			return v
+		}
 		if base.ty != tBytes {
 			return t.failV(x, "index into %s (only []byte)", base.ty)
 		}
@@ -774,6 +789,9 @@ func (t *tr) selector(x *ast.SelectorExpr) val {
 			if f.name == x.Sel.Name {
 				return val{code: base + "." + leanIdent(f.name), ty: f.ty}
 			}
+		}
+		if v, ok := t.promoted7(base, ty, x.Sel.Name); ok { // translate7.go: a field of an embedded struct
+			return v
 		}
 		return t.failV(x, "%s has no field %s", ty, x.Sel.Name)
 	}
@@ -2245,6 +2263,9 @@ func (t *tr) typeSwitch(x *ast.TypeSwitchStmt, rest []ast.Stmt, k konts) []strin
 	mark := len(t.env)
 	defer func() { t.env = t.env[:mark] }()
 	if lines, ok := t.typeSwitch5(x, rest, k); ok { // translate5.go: a switch on an interface{} holding structs of the package
+		return lines
+	}
+	if lines, ok := t.typeSwitch7(x, rest, k); ok { // translate7.go: the sums of the sFlow decoder
 		return lines
 	}
 	if x.Init != nil {
